@@ -79,15 +79,24 @@ def size_case(case, rec, ssj, tables_cache):
     m, t, N = case['measure'], case['threshold'], case['N']
     decisions = []
     must_keep = must_drop = 0
-    for variant in (0, 1):
+    # ONE filter object serves all three tables (same counts, different tokens / row order): the
+    # decision may depend on the counts only, not on what the object saw before
+    tok = T.make_tokenizer({'kind': 'ws', 'return_set': True})
+    shared = T.make_filter(ssj, {'kind': 'SizeFilter', 'measure': m, 'threshold': t}, tok)
+    for variant in (0, 1, 2):
         if (N, variant) not in tables_cache:
-            tables_cache[(N, variant)] = count_tables(N, variant)
+            if variant == 2:
+                L0, R0 = count_tables(N, 1)
+                rows = T.spec_rows(L0)[::-1]          # same rows, reversed order, shifted keys stay
+                tables_cache[(N, variant)] = (T.table_spec(['id', 's'], rows, dtypes={'s': 'object'}), R0)
+            else:
+                tables_cache[(N, variant)] = count_tables(N, variant)
         L, R = tables_cache[(N, variant)]
         call = {'api': 'filter_tables', 'filter': {'kind': 'SizeFilter', 'measure': m, 'threshold': t},
                 'ltable': L, 'rtable': R, 'l_key': 'id', 'r_key': 'id', 'l_attr': 's', 'r_attr': 's',
                 'tok': {'kind': 'ws', 'return_set': True}, 'n_jobs': 1}
         try:
-            df = T.exec_call(ssj, call)
+            df = T.exec_call(ssj, call, {'filter': shared, 'tok': tok})
         except Exception as e:
             rec.count('calls_raised')
             rec.add('raised', '%s: %s' % (type(e).__name__, str(e)[:80]))
@@ -95,6 +104,11 @@ def size_case(case, rec, ssj, tables_cache):
         kept = set(zip(df['l_id'].tolist(), df['r_id'].tolist()))
         decisions.append(kept)
         rec.count('size_cells', N * N)
+    if decisions[0] != decisions[2]:
+        d = sorted(decisions[0] ^ decisions[2])[:3]
+        rec.violation('counts_alone', 'SizeFilter(%s,%r): the same filter object decides differently on a '
+                      'table holding the same rows in reversed order (after having filtered other '
+                      'tables), e.g. count pairs %r' % (m, t, d), case=case)
     if decisions[0] != decisions[1]:
         d = sorted(decisions[0] ^ decisions[1])[:3]
         rec.violation('counts_alone', 'SizeFilter(%s,%r): decision differs between two tables with the '
@@ -180,7 +194,8 @@ def random_fspec(rng, kinds):
     if kind == 'OverlapFilter':
         return {'kind': kind, 'overlap_size': rng.choice([1, 1, 2, 3]), 'comp_op': rng.choice(['>=', '>', '='])}
     m = rng.choice(['JACCARD', 'COSINE', 'DICE', 'OVERLAP', 'EDIT_DISTANCE'])
-    f = {'kind': kind, 'measure': m, 'allow_empty': rng.random() < 0.6}
+    f = {'kind': kind, 'measure': m, 'allow_empty': rng.random() < 0.6,
+         'measure_spelling': gen.spell(rng, m)}
     f['threshold'] = rng.choice([1, 2, 3]) if m == 'OVERLAP' else (rng.choice([0, 1, 2, 3, 5]) if m == 'EDIT_DISTANCE'
                                                                      else gen.random_threshold(rng))
     return f
